@@ -64,17 +64,18 @@ def induced_modes(recipe_path):
 
 
 def f20(scn, rec, res, r):
-  """Known finding F20: one generic constant feeds a CONCATENATION and another operator under a static-range recipe,
-  and the rejection names exactly that constant (twice)."""
+  """Known finding F20: one constant (generic constant or bias) feeds two or more operators under a static-range recipe that
+  derive different parameters for it, and the rejection names exactly that constant (twice)."""
   if rec not in ("default_a8w8_recipe.json", "default_a16w8_recipe.json") or "share the same buffer" not in res:
     return False
   for si, sub in enumerate(scn["subs"]):
     for t, role in enumerate(sub["trole"]):
-      if role != "c":
+      if role not in ("c", "b"):
         continue
       users = [o for o in sub["ops"] if t in o["ins"]]
       name = synth.tname(si, t, len(scn["subs"]))
-      if len(users) >= 2 and any(o["kind"] in ("CONCAT", "CONCAT3") for o in users) and res.count("b'%s'" % name) == 2:
+      differ = (role == "c" and any(o["kind"] in ("CONCAT", "CONCAT3") for o in users)) or role == "b"
+      if len(users) >= 2 and differ and res.count("b'%s'" % name) == 2:
         return True
   return False
 
